@@ -208,6 +208,9 @@ class Guards:
             return set()
         if name.startswith("method:") or name.startswith("call:"):
             meth = name.rsplit(".", 1)[-1]
+            if meth == "result" and len(call.args) + len(call.keywords) <= 1 and not name.startswith("method:builtins."):
+                # Future.result re-raises whatever the task raised - any BaseException (the executor stores them all)
+                return {"BaseException"}
             if name.startswith("method:builtins.") or name.startswith("method:?."):
                 if meth in SAFE_METHODS:
                     return set()
